@@ -22,7 +22,7 @@ func init() {
 			{"C02/presence-is-nil", func(c *Ctx) { rulePresenceIsNil(c, "C02/presence-is-nil") }},
 		},
 		Explanation: "Decides the draft-selection structure: the supported-version predicate, evaluated abstractly over the partition {\"\", the two draft-07 URIs, the 2020-12 URI, anything else}, is true on exactly the first four classes; the draft detector maps the two draft-07 spellings to draft-07 and the others to 2020-12; in Validate (and default validation) the predicate is applied to the root's $schema, its false outcome returns an error and it dominates every evaluation; under draft-07 a successful $ref returns before any other keyword of the schema object is read, and an $id beside $ref is ignored under the same test; the $schema stored into a loaded document and the draft of every Resolved derive from the root of the referring document, never from the referring subschema; $anchor/$dynamicAnchor are registered only under 2020-12 and fragment $id anchors only under draft-07. It does NOT decide that items-array/additionalItems/dependencies behave as draft-07 prescribes for concrete inputs (the suite's 913 draft-07 pairs exercise those handlers).",
-		NotDecided: []string{"the verdict of any draft-07 schema/instance pair", "behaviour of array-form items, additionalItems and dependencies beyond being reached under the draft-07 test"},
+		NotDecided:  []string{"the verdict of any draft-07 schema/instance pair", "behaviour of array-form items, additionalItems and dependencies beyond being reached under the draft-07 test"},
 	})
 }
 
